@@ -451,12 +451,17 @@ def check_classlayer(p, stats=None):
             originals.append((x, x.copy()))
             ss = SingleSetup(x, fs=fs)
             setups.append(ss)
+            fs_true = float(fs)  # the sampling rate of the record as it is now, tracked here and not read back from the setup
         elif op == "add":
             for name in step[1]:
                 ss.add_algorithms(algs[name][1])
-                handed[name] = (np.array(ss.data, dtype=float, copy=True), float(ss.fs))
+                handed[name] = (np.array(ss.data, dtype=float, copy=True), fs_true)
         elif op == "decimate":
+            n_before = ss.data.shape[0]
             ss.decimate_data(q=step[1])
+            fs_true = fs_true / step[1]
+            if ss.data.shape[0] != -(-n_before // step[1]):
+                out.append(("class-decimate-length", f"decimate_data(q={step[1]}) left {ss.data.shape[0]} of {n_before} samples", None, None))
         elif op == "run":
             for name in step[1]:
                 ss.run_by_name(name)
@@ -523,7 +528,7 @@ def _gen_classlayer(ctx, seed):
     fs2 = rng.choice([f for f in fss if f != fs1])
     q = rng.choice([2, 3, 4, 5])
     N = lambda n, k=1: k * max(a["nxseg"], b["nxseg"]) * rng.randint(6, 12) + rng.randint(0, 50)  # noqa: E731
-    scen = rng.choice(["decimate-readd", "second-setup", "run-twice", "two-objects", "decimate-not-readd"])
+    scen = rng.choice(["decimate-readd", "second-setup", "run-twice", "two-objects", "decimate-not-readd", "decimate-twice"])
     if scen == "decimate-readd":
         steps = [["setup", fs1, N(0, q), amp], ["add", ["A", "B"]], ["run", ["A"]], ["decimate", q], ["add", ["A"]], ["run", ["A"]],
                  ["add", ["B"]], ["run", ["B"]], ["recheck", ["A"]]]
@@ -535,6 +540,9 @@ def _gen_classlayer(ctx, seed):
     elif scen == "two-objects":
         steps = [["setup", fs1, N(0), amp], ["add", ["A"]], ["run", ["A"]], ["setup", fs2, N(0), amp], ["add", ["B"]], ["run", ["B"]],
                  ["recheck", ["A", "B"]]]
+    elif scen == "decimate-twice":  # two decimations in a row, then analysis: lines every fs/(q q2)/nxseg
+        q2 = rng.choice([2, 3])
+        steps = [["setup", fs1, N(0, q * q2), amp], ["decimate", q], ["decimate", q2], ["add", ["A", "B"]], ["run", ["A", "B"]]]
     else:  # the object keeps the record it was handed (not re-added): result must describe THAT record
         steps = [["setup", fs1, N(0, q), amp], ["add", ["A"]], ["run", ["A"]], ["decimate", q], ["run", ["A"]], ["add", ["B"]], ["run", ["B"]]]
     return {"kind": "classlayer", "npseed": seed, "nxseg": a["nxseg"], "pov": a["pov"], "na": nch, "nch": nch, "scenario": scen,
